@@ -355,10 +355,10 @@ def _cnot_count_estimate(isometry, scheme="ccd"):
     log_cols = int(log2(iso.shape[1]))
 
     if scheme == "knill":
-        return _cnot_count_estimate_knill(isometry, log_lines, log_cols)
+        return _cnot_count_estimate_knill(iso, log_lines, log_cols)
 
     if scheme == "csd":
-        return _cnot_count_estimate_csd(isometry, log_lines, log_cols)
+        return _cnot_count_estimate_csd(iso, log_lines, log_cols)
 
     # CCD
     return _cnot_count_estimate_ccd(log_lines, log_cols)
